@@ -24,16 +24,57 @@ type kind struct {
 	Name      string
 	Tr        string // streamable | sse   (the model's transport)
 	Mode      string // stateful | stateless | sessionsOff (streamable)
-	AcceptSSE bool   // POST answered as an SSE stream (the other responder branch of handlePostRequest)
+	AcceptSSE bool   // the client's Accept header contains text/event-stream (besides application/json)
+	PostSSE   bool   // WithPostSSEEnabled(true); with AcceptSSE the POST is answered as an SSE stream (the other responder branch of handlePostRequest)
 }
 
+// the kinds of the exhaustive chain enumeration
 var kinds = []kind{
-	{"st-json", "streamable", "stateful", false},
-	{"st-postsse", "streamable", "stateful", true},
-	{"stateless", "streamable", "stateless", false},
-	{"nosession", "streamable", "sessionsOff", false},
-	{"legacy-sse", "sse", "", false},
+	{"st-json", "streamable", "stateful", false, false},
+	{"st-postsse", "streamable", "stateful", true, true},
+	{"stateless", "streamable", "stateless", false, false},
+	{"nosession", "streamable", "sessionsOff", false, false},
+	{"legacy-sse", "sse", "", false, false},
 }
+
+// matrixKinds: every server configuration x response mode — {stateful, stateless, sessions disabled} x
+// {Accept: application/json, Accept: application/json + text/event-stream} x {POST-SSE enabled, disabled} — and legacy SSE
+// (the session matrix and the option-order phase; NOT the exhaustive enumeration).
+var matrixKinds = func() []kind {
+	var l []kind
+	for _, mode := range []string{"stateful", "stateless", "sessionsOff"} {
+		for _, acc := range []bool{false, true} {
+			for _, post := range []bool{true, false} {
+				an, pn := "json", "postsse-off"
+				if acc {
+					an = "json+sse"
+				}
+				if post {
+					pn = "postsse-on"
+				}
+				l = append(l, kind{"mx-" + mode + "-" + an + "-" + pn, "streamable", mode, acc, post})
+			}
+		}
+	}
+	return append(l, kind{"mx-legacy-sse", "sse", "", false, false})
+}()
+
+func kindByName(name string) (kind, bool) {
+	for _, k := range kinds {
+		if k.Name == name {
+			return k, true
+		}
+	}
+	for _, k := range matrixKinds {
+		if k.Name == name {
+			return k, true
+		}
+	}
+	return kind{}, false
+}
+
+// framedSSE: the answer to a POST of this kind is an SSE stream (both the server option and the Accept header are needed).
+func (k kind) framedSSE() bool { return k.Tr == "streamable" && k.AcceptSSE && k.PostSSE }
 
 type server struct {
 	k        kind
@@ -45,6 +86,7 @@ type server struct {
 	sessions []string
 	peers    []*ssePeer
 	nextID   atomic.Int64
+	order    []string // explicit option order the server was built with (nil = the classic order)
 }
 
 var notifMethods = []string{"notifications/initialized", "notifications/cancelled", "notifications/verif"}
